@@ -17,6 +17,9 @@ from xdeps.optimize import jacobian as xj
 from xdeps.optimize import matrixutils as xm
 
 xdeps.general._print.suppress = True
+np.seterr(all="ignore")
+import warnings
+warnings.simplefilter("ignore")
 
 EPS = 2.0 ** -52
 
@@ -44,6 +47,21 @@ def HL(vs):
 # ---------------------------------------------------------------------------
 # merit function families
 # ---------------------------------------------------------------------------
+
+def singular(kind, kj, c, amp):
+    """terms that are undefined (NaN) at a point or on a half line, computed with
+    numpy scalars (no Python exceptions): sinc 0/0, 0/0, sqrt and log outside their domain"""
+    u = np.float64(kj) - np.float64(c)
+    if kind == "sinc":
+        return float(np.float64(amp) * np.sin(u) / u)
+    if kind == "zero_over":
+        return float(np.float64(amp) * (u * np.float64(0.0)) / u)
+    if kind == "sqrt":
+        return float(np.float64(amp) * np.sqrt(u))
+    if kind == "log":
+        return float(np.float64(amp) * np.log(u) if u != 0 else np.float64("nan"))
+    raise ValueError(kind)
+
 
 def make_function(spec, rec=None, twin=None):
     """r_i = sum_j A_ij k_j + b_i + sum_j Q_ij k_j^2 + T_i sin(sum_j U_ij k_j + P_i);
@@ -75,6 +93,8 @@ def make_function(spec, rec=None, twin=None):
                     ph += U[i][j] * k[j]
                 v += T[i] * math.sin(ph)
             out.append(v)
+        for kind, i, j, c, amp in spec.get("S", []):
+            out[i] = out[i] + singular(kind, k[j], c, amp)
         if twin is not None:
             j, amp = twin
             out[j] = out[j] * (1.0 + amp) + amp * math.cos(3.0 * k[0]) + 7.0 * amp
@@ -190,7 +210,8 @@ def build(case, rec, twin=None):
     g = make_function(case["fun"], rec, twin)
     vary = []
     for i, v in enumerate(case["vary"]):
-        vary.append(xo.Vary(names[i], container=cont, limits=v["limits"], step=v["step"], weight=v["weight"],
+        vary.append(xo.Vary(names[i], container=cont, limits=(None if v["limits"] is None else tuple(v["limits"])),
+                            step=v["step"], weight=v["weight"],
                             max_step=v["max_step"], tag=v["tag"], active=v["active"]))
     act = Act(g, cont, names)
     targets = [xo.Target(i, t["value"], tol=t["tol"], weight=t["weight"], action=act, tag=t["tag"])
@@ -199,7 +220,7 @@ def build(case, rec, twin=None):
     CUR["rec"] = rec
     opt = xo.Optimize(vary=vary, targets=targets, restore_if_fail=o["restore_if_fail"],
                       assert_within_tol=o["assert_within_tol"], n_steps_max=o["n_steps_max"],
-                      show_call_counter=False, verbose=False)
+                      check_limits=o.get("check_limits", True), show_call_counter=False, verbose=False)
     return opt, cont, names, make_function(case["fun"], None, twin)
 
 
@@ -268,17 +289,44 @@ def independent(g, case, knobs, ta):
     scale2 = 0.0
     for i, t in enumerate(case["targets"]):
         if ta[i]:
-            pen2 += (errs[i] * t["weight"]) ** 2
-            scale2 += ((abs(r[i]) + abs(t["value"])) * t["weight"]) ** 2
+            pen2 += (errs[i] * t["weight"]) * (errs[i] * t["weight"])
+            sc = (abs(r[i]) + abs(t["value"])) * t["weight"]
+            if math.isfinite(sc):
+                scale2 += sc * sc
     return r, errs, math.sqrt(pen2), math.sqrt(scale2)
 
 
+FD_SIG = "fd-perturbation-left-by-a-raising-step"
+
+
+def fd_leftover(case, knobs, bad):
+    """every violation in [bad] is at most the finite-difference step of that
+    knob beyond the limit (get_jacobian's last perturbation left in the container)"""
+    for i in bad:
+        v = case["vary"][i]
+        h = abs(1e-10 if v["step"] is None else v["step"])
+        lo, hi = v["limits"]
+        exc = (lo - knobs[i]) if (lo is not None and knobs[i] < lo) else (knobs[i] - hi)
+        if not exc <= h * (1 + 1e-6) + 16 * EPS * max(abs(knobs[i]), 2.0 ** -1000):
+            return False
+    return True
+
+
 def within_limits(case, knobs):
+    """knobs outside a given (not None) side of their closed limits.  With
+    check_limits=False and non-unit weights the solver polices x = knob/weight:
+    the knob may overshoot a limit by the rounding of the weight scaling."""
     bad = []
+    strict = case["opts"].get("check_limits", True)
     for i, v in enumerate(case["vary"]):
-        if v["limits"] is not None:
-            if knobs[i] < v["limits"][0] or knobs[i] > v["limits"][1]:
-                bad.append(i)
+        if v["limits"] is None:
+            continue
+        lo, hi = v["limits"]
+        slack = 0.0 if (strict or v["weight"] == 1.0) else 8 * EPS * max(abs(knobs[i]), 2.0 ** -1000)
+        if lo is not None and knobs[i] < lo - slack:
+            bad.append(i)
+        elif hi is not None and knobs[i] > hi + slack:
+            bad.append(i)
     return bad
 
 
@@ -352,6 +400,7 @@ def run_sequence(case, rec, twin=None, with_oracles=True):
     n = len(names)
     out["init"] = observe(opt, cont, names, 0)
     prev_len = out["init"]["loglen"]
+    tainted = False       # a step()/solve() raised without restoring: containers may hold an unaccepted point
     if with_oracles:
         bad = within_limits(case, [cont[nm] for nm in names])
         if bad:
@@ -394,14 +443,18 @@ def run_sequence(case, rec, twin=None, with_oracles=True):
             for i in range(len_before if kind != "clear" else 0, nrows):
                 bad = within_limits(case, [float(v) for v in L["knobs"][i]])
                 if bad:
-                    out["C10"].append({"what": "log row outside limits", "op": iop, "row": i, "knobs": bad,
-                                       "values": HL(L["knobs"][i])})
+                    f = {"what": "log row outside limits", "op": iop, "row": i, "knobs": bad, "values": HL(L["knobs"][i])}
+                    if tainted and fd_leftover(case, [float(v) for v in L["knobs"][i]], bad):
+                        f["signature"] = FD_SIG
+                    out["C10"].append(f)
             restored = kind == "solve" and status != "ok" and case["opts"]["restore_if_fail"]
             if status == "ok" or restored:
                 bad = within_limits(case, kn_after)
                 if bad:
-                    out["C10"].append({"what": "containers outside limits after the call", "op": iop, "knobs": bad,
-                                       "values": HL(kn_after)})
+                    f = {"what": "containers outside limits after the call", "op": iop, "knobs": bad, "values": HL(kn_after)}
+                    if tainted and fd_leftover(case, kn_after, bad):
+                        f["signature"] = FD_SIG
+                    out["C10"].append(f)
             if kind in ("step", "solve"):
                 # ---- C10: max_step between consecutive Jacobian-step rows ----------
                 for i in range(max(len_before, 1), nrows):
@@ -447,7 +500,8 @@ def run_sequence(case, rec, twin=None, with_oracles=True):
                 if status == "ok" and case["opts"]["assert_within_tol"]:
                     try:
                         r, errs, _, _ = independent(g, case, kn_after, ta_after)
-                        bad = [i for i, t in enumerate(case["targets"]) if ta_after[i] and not abs(errs[i]) < t["tol"]]
+                        bad = [i for i, t in enumerate(case["targets"])
+                               if ta_after[i] and not (t["tol"] is not None and abs(errs[i]) < t["tol"])]
                     except UserFault:
                         bad = ["user function raises at the returned point"]
                     if bad:
@@ -466,8 +520,11 @@ def run_sequence(case, rec, twin=None, with_oracles=True):
                 ta_call = s2b(L["target_active"][nrows - 1])
                 try:
                     r, errs, p_fin, scale = independent(g, case, kn_after, ta_call)
-                    ok_tol = all((not ta_call[i]) or abs(errs[i]) < t["tol"] for i, t in enumerate(case["targets"]))
+                    ok_tol = all((not ta_call[i]) or (t["tol"] is not None and abs(errs[i]) < t["tol"])
+                                 for i, t in enumerate(case["targets"]))
                     pens = [float(L["penalty"][i]) for i in range(len_before, nrows)]
+                    if any(math.isnan(x) for x in pens) or math.isnan(p_fin):
+                        raise UserFault("undefined penalties: minimum not defined")
                     pmin = min(pens)
                     if not ok_tol and not (p_fin <= pmin * (1 + 1e-9) + 1e-9 * scale * 1e-6 + 1e-300):
                         out["C15"].append({"what": "step(take_best=True) ended neither within tolerance nor on the minimum-penalty point",
@@ -480,6 +537,8 @@ def run_sequence(case, rec, twin=None, with_oracles=True):
                                                "op": iop, "knobs": HL(kn_after)})
                 except UserFault:
                     pass
+        if status != "ok" and (kind == "step" or (kind == "solve" and not case["opts"]["restore_if_fail"])):
+            tainted = True
         if with_oracles and kind == "step" and status != "ok":
             # observations outside the properties (recorded, never a failure)
             dv, dt = temp_disabled(opt, op[3])
@@ -547,11 +606,15 @@ def rows_oracle(opt, cont, names, g, case, unit, iop):
                 continue
             p_row = float(L["penalty"][i])
             t_row = [float(v) for v in L["targets"][i]]
-            if not abs(p - p_row) <= 1e-9 * max(p, p_row) + (0.0 if unit else 1e-9 * scale) + 1e-300:
+            if math.isnan(p) and math.isnan(p_row):
+                pass
+            elif not abs(p - p_row) <= 1e-9 * max(p, p_row) + (0.0 if unit else 1e-9 * scale) + 1e-300:
                 fails.append({"what": "penalty of the row is not reproduced by an independent evaluation at reload(i)",
                               "at": iop, "row": i, "row_penalty": H(p_row), "recomputed": H(p), "alpha": L["alpha"][i]})
                 continue
             for j in range(len(r)):
+                if math.isnan(r[j]) and math.isnan(t_row[j]):
+                    continue
                 if not abs(r[j] - t_row[j]) <= (0.0 if unit else 1e-9 * (abs(r[j]) + abs(t_row[j])) + 1e-12 * scale + 1e-300):
                     fails.append({"what": "target values of the row are not reproduced at reload(i)", "at": iop, "row": i,
                                   "target": j, "row_value": H(t_row[j]), "recomputed": H(r[j])})
@@ -564,16 +627,11 @@ def rows_oracle(opt, cont, names, g, case, unit, iop):
 
 
 def nonfinite(rec, out):
+    """NaN / inf knob values are outside the model (numpy's allclose treats them
+    specially and a NaN step never leaves the bisection loop); NaN / inf targets,
+    penalties, Jacobians and tolerances are modelled"""
     for k, v in rec["f"]:
-        if v is not None and not all(math.isfinite(x) for x in v):
-            return True
         if not all(math.isfinite(x) for x in k):
-            return True
-    for y, p in rec["pen"]:
-        if not math.isfinite(p):
-            return True
-    for m, b, x in rec["newton"]:
-        if not all(math.isfinite(v) for v in x):
             return True
     return False
 
